@@ -34,16 +34,22 @@ def deref_rule(g):
 
 
 def near_operands(g, a, b, c, k, shape):
-    """the operand the rule describes and near misses (one component changed, extra/missing component, other shapes)"""
+    """the operand the rule describes and near misses (one component changed, extra/missing component, other shapes);
+    each as (printed text, components) with components = (displacement or None, base, (index, scale) or None) - None for
+    operands that are no memory reference"""
     def mem(a, b, c, k, shape):
         inner = "%" + a
+        idx = None
         if shape & 1 and shape & 2:
             inner += ",%%%s,%s" % (b, c)
+            idx = (b, str(c))
         elif shape & 1:
             inner += ",%%%s,1" % b         # objdump always prints the scale
+            idx = (b, "1")
         elif shape & 2:
-            inner += ",,%s" % c
-        return (k if shape & 4 else "") + "(" + inner + ")"
+            inner += ",,%s" % c            # never printed by objdump; the parser's reaction is compared with the model only
+            return (k if shape & 4 else "") + "(" + inner + ")", "unprintable"
+        return (k if shape & 4 else "") + "(" + inner + ")", ((k if shape & 4 else None), a, idx)
     out = [mem(a, b, c, k, shape if (shape & 3) in (0, 1, 3) else (shape | 3))]
     out.append(mem(g.pick(REGS), b, c, k, shape | 3))
     out.append(mem(a, g.pick(REGS), c, k, shape | 3))
@@ -51,29 +57,57 @@ def near_operands(g, a, b, c, k, shape):
     out.append(mem(a, b, c, g.pick(["0x8", "0x18", "-0x8", "0x80"]), shape | 7))
     out.append(mem(a, b, c, k, (shape | 3) ^ 4))
     out.append(mem(a, b, c, k, shape & 4))
-    out.append("%" + a)
-    out.append("$" + (k if not k.startswith("-") else "0x8"))
+    out.append(("%" + a, None))
+    out.append(("$" + (k if not k.startswith("-") else "0x8"), None))
     out.append(mem(a, b, c, k + "0", shape | 4))
     # the same displacement with the opposite sign (a pattern written `8` or `0x8` must not accept `-0x8` and vice versa)
     kk = k if k.startswith(("0x", "-")) else "0x" + k
     neg = kk[1:] if kk.startswith("-") else "-" + kk
     out.append(mem(a, b, c, neg, shape | 4))
     out.append(mem(a, b, c, neg, 4))
+    # a displacement that reads like the scale: `8(%a)` must not pass for a reference with scale 8 and vice versa
+    out.append(mem(a, b, c, g.pick(["0x%s" % c, str(c)]), 4))
     return out
+
+
+def expected_by_property(shape, a, b, c, k, comps):
+    """Independent oracle, straight from the property text: the `$deref` with the present fields (shape bits: 1 index
+    register, 2 scale, 4 displacement) matches a memory reference iff it has the SAME present components, each equal
+    up to the optional `0x` of constants (registers are printed with `%`, which the pattern may omit)."""
+    if comps is None:
+        return False            # register, immediate: no memory reference
+    k2, a2, idx = comps
+
+    def const_eq(pat, got):
+        return got in (str(pat), "0x" + str(pat))
+    if a2 != a:
+        return False
+    if bool(shape & 1) != bool(shape & 2):
+        return False            # objdump prints index and scale together or not at all
+    if bool(shape & 1) != (idx is not None):
+        return False
+    if idx is not None and not (idx[0] == b and const_eq(c, idx[1])):
+        return False
+    if bool(shape & 4) != (k2 is not None):
+        return False
+    if k2 is not None and not const_eq(k, k2):
+        return False
+    return True
 
 
 def run(ctx, factor):
     g, rep = ctx.g, ctx.report
     rep.rule = ("one $deref operand per rule over the 8 present/absent field combinations x %/0x spellings; for each rule "
-                "12 operands: the described one and near misses (incl. the displacement with the opposite sign) (other base/index/scale/displacement, extra or missing "
+                "13 operands: the described one and near misses (incl. the displacement with the opposite sign) (other base/index/scale/displacement, extra or missing "
                 "component, register, immediate, displacement with one more digit), printed in AT&T form and sent "
-                "through the real parser; verdict vs the specification's set of accepted normal forms")
+                "through the real parser; verdict vs the specification's set of accepted normal forms and, for one-operand rules, vs an independent component-agreement oracle written from the property text")
     n = ctx.budget(40, 900) * factor
     for _ in range(n):
         doc, (a, b, c, k, shape) = deref_rule(g)
         m = next(iter(doc["pattern"][0]))
         nops = len(doc["pattern"][0][m])
-        for cand in near_operands(g, a, b, c, k, shape):
+        pat_k = doc["pattern"][0][m][[i for i, x in enumerate(doc["pattern"][0][m]) if isinstance(x, dict)][0]]["$deref"].get("constant_offset")
+        for cand, comps in near_operands(g, a, b, c, k, shape):
             ops = [cand]
             if nops == 2:
                 pos = [i for i, x in enumerate(doc["pattern"][0][m]) if isinstance(x, dict)][0]
@@ -86,6 +120,13 @@ def run(ctx, factor):
             if usable:
                 tags.append("spec-found" if o["model"][1]["spec"]["found"] else "spec-not-found")
                 patdiff.spec_verdict(ctx, o)
+                if nops == 1 and comps != "unprintable":
+                    # the independent oracle (component agreement as the property words it)
+                    exp = expected_by_property(shape, a, b, c, pat_k, comps)
+                    if o["impl_bool"] != ("ok", exp):
+                        rep.violate("component-agreement", patdiff.case_of(o), {"found": exp}, {"found": o["impl_bool"]},
+                                    model_agrees_with_spec=(o["model"][1]["spec"]["found"] == exp))
+                    tags.append("oracle-found" if exp else "oracle-not-found")
             rep.case(patdiff.case_of(o), usable, tags=tags)
         if rep.violations and factor > 1:
             return
